@@ -47,6 +47,8 @@ CONSTANTS
   SecSel = {secs}
   QuestionSel = {qsel}
   QMax = {qmax}
+  PayloadSel = {payloads}
+  ChildMax = {childmax}
 INVARIANT Emit
 CHECK_DEADLOCK FALSE
 """
@@ -62,7 +64,7 @@ def tset(xs):
 def gen_cfg(ctx, name, **kw):
     d = dict(opcodes=tset([0]), maxrecs=2, names=tset([2, 3, 4]), targets=tset([2, 4]), kinds=tset(["A", "NS"]),
              forms=tset(ALL_FORMS), edns=tset(["off"]), rcodes=tset([0]), bits=tset([256]), origins=tset([False]),
-             ttls="TtlOne", txt=tset([]), txtn=tset([1]), big=tset([]), ids=tset([4660]), pads=tset([0]), zcls=tset([1]), maxes=tset([65535]), optidx=tset([0]), secs=tset([1, 2, 3]), qsel=tset([True, False]), qmax=1)
+             ttls="TtlOne", txt=tset([]), txtn=tset([1]), big=tset([]), ids=tset([4660]), pads=tset([0]), zcls=tset([1]), maxes=tset([65535]), optidx=tset([0]), secs=tset([1, 2, 3]), qsel=tset([True, False]), qmax=1, payloads=tset([70000]), childmax=0)
     d.update(kw)
     return ctx.cfg(name, GEN_CFG.format(**d))
 
@@ -81,7 +83,7 @@ def classify(tr, line, clause):
 
 def scripts_for(ctx, quick):
     S = []
-    VARIANT_CFGS = ("g1c.cfg", "g2b.cfg", "g2c.cfg", "g2d.cfg", "g3b.cfg", "g3c.cfg", "g4.cfg", "g9.cfg")
+    VARIANT_CFGS = ("g1c.cfg", "g10.cfg", "g2f.cfg", "g2b.cfg", "g2c.cfg", "g2d.cfg", "g3b.cfg", "g3c.cfg", "g4.cfg", "g9.cfg")
     varkeys = set()
 
     def g(name, **kw):
@@ -106,6 +108,11 @@ def scripts_for(ctx, quick):
     # G2d: every EDNS option code 0..20 and 65001 with boundary bodies, as generic (code, body) pairs
     S += g("g2d.cfg", maxrecs=0, edns=tset(["v0"]), optidx=tset(range(1, 69)), qsel=tset([False]))
     S += g("g2e.cfg", maxrecs=0, opcodes=tset([0, 5]), edns=tset(["opts"]), optidx=tset([8, 21, 33, 36, 47, 68]), pads=tset([0, 16]))
+    # G2f: advertised UDP payload boundary values (0, 1, 511 are below the RFC 6891 minimum but must survive as written)
+    S += g("g2f.cfg", maxrecs=0, opcodes=tset([0, 5]), edns=tset(["v0", "do"]), payloads=tset([0, 1, 511, 512, 513, 65535]),
+           pads=tset([0, 16]))
+    # G10: chains of owners each a child of the previous one, up to 24 deep (k-th owner = k pointer hops)
+    S += g("g10.cfg", names=tset([]), kinds=tset([]), maxrecs=0, childmax=24, qsel=tset([False]))
     # G3: dynamic updates: every RFC 2136 form
     S += g("g3.cfg", opcodes=tset([5]), names=tset([2, 4]), targets=tset([4]), kinds=tset(["A"] if quick else ["A", "NS"]))
     # G3b: updates of a zone whose class is not IN (CH): class ANY/NONE forms must come back with the ZONE's class
@@ -181,7 +188,7 @@ def run(ctx):
             ctx.sample({"tid": tr["tid"], "ev": [{k: v for k, v in e.items() if k not in ("table",)} for e in tr["ev"][:3]]})
     jobmap = {j[0]: j for j in jobs}
     ctx.evaluations = len(traces)
-    rejects = ctx.validate("Trace_Renderer", "Trace_Renderer.cfg", traces)
+    rejects = ctx.validate("Trace_Renderer", "Trace_Renderer.cfg", traces, env={"JAVA_TOOL_OPTIONS": "-Xss64m"})
     for tr, line, clause in rejects:
         sig = classify(tr, line, clause)
         e = tr["ev"][line - 1] if line else {}
